@@ -29,7 +29,7 @@ FILE_CHECKS = [
     ("common/cache.rs", ["C14", "C03"]),
     ("common/", ["C01", "C10", "C03"]),
     ("tree/", ["C03", "C05", "C04", "C09", "C01", "C14"]),
-    ("core.rs", ["C01", "C03", "C13", "C08", "C12", "C10", "C02", "C04", "C09"]),
+    ("core.rs", ["C01", "C03", "C13", "C08", "C12", "C10", "C02", "C04", "C09", "C06"]),
     ("storage/", ["C01", "C10", "C14", "C08"]),
     ("data/", ["C01", "C03", "C14"]),
     ("crypto/", ["C05", "C04", "C12", "C06"]),
@@ -41,7 +41,7 @@ FILE_CHECKS = [
 
 def sh(cmd, cwd=None, env=None, timeout=None):
     try:
-        p = subprocess.run(cmd, shell=True, cwd=cwd, env=env or ENV, stdout=subprocess.PIPE, stderr=subprocess.STDOUT, timeout=timeout, text=True, errors="replace")
+        p = subprocess.run(cmd, shell=True, executable="/bin/bash", cwd=cwd, env=env or ENV, stdout=subprocess.PIPE, stderr=subprocess.STDOUT, timeout=timeout, text=True, errors="replace")
         return p.returncode, p.stdout
     except subprocess.TimeoutExpired as e:
         return 124, (e.stdout or b"").decode(errors="replace") if isinstance(e.stdout, bytes) else (e.stdout or "")
